@@ -199,6 +199,8 @@ func (i *interpreter) equalsT(t types.Type, x, y value) *Term {
 		switch y := y.(type) {
 		case *value:
 			return mkBool(x == y)
+		case unsafe.Pointer:
+			return mkBool(unsafe.Pointer(x) == y)
 		case rawAddr:
 			return tFalse
 		}
@@ -218,6 +220,9 @@ func (i *interpreter) equalsT(t types.Type, x, y value) *Term {
 		}
 		return tFalse
 	case unsafe.Pointer:
+		if yp, ok := y.(*value); ok {
+			return mkBool(x == unsafe.Pointer(yp))
+		}
 		return mkBool(x == y.(unsafe.Pointer))
 	}
 	if ysv, ok := y.(*SV); ok {
